@@ -19,20 +19,29 @@ func (Engine) Info(prop string) core.Info {
 	}
 	return core.Info{
 		Level: "exploration",
-		Rule: "one plan = one telnet login on the simulated network in one of three arms: (ll) the library's Dial*/DialURL variants against the library's Listen/Accept, " +
+		Rule: "one plan = one run on the simulated network. 60 % of the plans are one telnet login in one of three arms: (ll) the library's Dial*/DialURL variants against the library's Listen/Accept, " +
 			"(ls) the library's dialler against a scripted server (conforming with its own read-ahead, or hostile: silent, partial prompt, garbage with/without CR, " +
-			"close at once / at prompt offset k, callsign prompt only, endless drip, password prompt later than the deadline, SYN never answered, refused), " +
+			"close at once / at prompt offset k, callsign prompt only, endless drip, password prompt later than the deadline, SYN never answered, refused, prompts but never reads on a link with back-pressure), " +
 			"(cl) a scripted client (blind or prompt-driven; callsign line, password line and payload in one write or cut at seed-chosen offsets) against the library's listener. " +
+			"40 % of the plans hold 2-5 sessions (each ll or cl, own callsign/password/payloads/link schedule/dial API) through ONE listener of the library, served by 1-3 goroutines running the usual accept loop " +
+			"(for { c := Accept(); go serve(c) }, seeded pauses): every session starts either on the run's clock or when a named earlier session has been closed on both sides, so sessions are sequential, overlapping or mixed; " +
+			"dial offsets, write pauses and the time a session stays open after its transfer are drawn from one time scale per plan so that logins, transfers and closes of different sessions interleave. " +
+			"Close behaviour per session and side: which side closes first or both without waiting for the other's EOF; Close called once, twice or three times (back to back = explicit + deferred Close, or after a pause, during which later sessions may be accepted); " +
+			"Close while the side's reader goroutine is blocked in Read, or after a read deadline has taken the reader out of Read. " +
+			"Consumption modes: the application on a library-made connection (dialled or accepted) reads it per plan with plain Read calls (seeded buffer sizes), io.Copy(dst, conn), io.CopyBuffer, the connection's own io.WriterTo if the returned value offers one, io.ReadAll, " +
+			"a bufio.Reader (Read calls, or io.Copy from it), and writes with Write calls, io.Copy(conn, src), the connection's own io.ReaderFrom if offered, or a bufio.Writer; the simulated net package hands out *net.TCPConn values whose ReadFrom/WriteTo go to the raw socket like the real ones, " +
+			"so a type assertion to *net.TCPConn inside the library succeeds as in production and promoted TCPConn methods behave as in production. " +
 			"Seeded: callsign (no CR, no leading/trailing white space: the listener trims - stated narrowing) and password (no CR) incl. empty, binary and >4 KiB; " +
-			"post-login payloads both ways (0 B .. 8 KB quick, 65 KB thorough; random, CR/LF/NUL, IAC, B2F text) in seeded Write calls, pauses and Read buffer sizes; " +
+			"post-login payloads both ways (0 B .. 8 KB quick, 65 KB thorough; random, CR/LF/NUL, IAC, B2F text; in runs with several sessions every 24 bytes carry a 5-byte tag naming session and direction, so that bytes handed to the wrong session are reported as cross-talk) in seeded Write calls, pauses and Read buffer sizes; " +
 			"dial API and timeout/deadline; per-direction segmentation, latency and coalescing tapes (a write may be merged into the still undelivered previous segment, " +
 			"so payload can share a segment with the last login line); a quiet regime in which payload starts only after both logins returned. " +
-			"Oracles: RemoteCall() of the accepted conn = dialled callsign; bytes read after login on each side = bytes the peer wrote after login (complete, in order, read to EOF/close); " +
-			"against hostile servers the dial call has returned when the simulated clock reaches its deadline + 1 s. " +
+			"Oracles, per session: RemoteCall() of the accepted conn = the callsign that session dialled with; bytes read after login on each side = bytes the peer of the same session wrote after login (complete, in order, nothing of any other session, read to EOF/close); " +
+			"against hostile servers the dial call has returned when the simulated clock reaches its deadline + 1 s; a dial to the package's own listener returns a connection, or an error not before its deadline (logins queue in the accept loop; timeouts are generated with room for all of them). " +
+			"A run is a function of its plan: sync.Pool contents are dropped (two collections) before every plan, so package-level state can travel between the sessions of a plan but not between plans. " +
 			"Non-trivial: a login completed and at least one payload byte was written, or a hostile-server dial was exercised. Distinct: distinct event-log hash.",
 		Real:         []string{"transport/telnet (Dial, DialTimeout, DialContext, Dialer.DialURL/DialURLContext, Listen, Accept, Conn)", "transport (ParseURL, DialURL, DialURLContext, dialer registry)"},
-		Stub:         []string{"clock (testing/synctest)", "TCP network (net import swapped for sim/shim/net -> sim/simnet + sim/pipe)", "scripted telnet server and client models", "applications on both ends (readers/writers)"},
-		Assumptions:  []string{"library runs on the Go 1.26.8 standard library, not 1.24.0", "goroutine choice between two environment events is the Go runtime's at GOMAXPROCS=1", "a dial_timeout URL parameter overrides the Dialer's own Timeout (as dial.go documents by construction)", "the simulated net.Dialer honours its context during connect (as the real one does)"},
+		Stub:         []string{"clock (testing/synctest)", "TCP network (net import swapped for sim/shim/net -> sim/simnet + sim/pipe; connections are the shim's *TCPConn with raw-socket ReadFrom/WriteTo)", "scripted telnet server and client models", "applications on both ends (accept loop, readers/writers in the plan's consumption mode, close behaviour)"},
+		Assumptions:  []string{"library runs on the Go 1.26.8 standard library, not 1.24.0", "goroutine choice between two environment events is the Go runtime's at GOMAXPROCS=1", "a dial_timeout URL parameter overrides the Dialer's own Timeout (as dial.go documents by construction)", "the simulated net.Dialer honours its context during connect (as the real one does)", "sync.Pool hands out the most recently returned item first (GOMAXPROCS=1, no collection inside a run); no race detector"},
 		QuickRuns:    80000,
 		ThoroughRuns: 2000000,
 		WatchdogSec:  120,
